@@ -59,6 +59,9 @@ def run(repo: Repo, tier: str, res: CheckResult, seed: int = 0) -> None:
                         "a predicate checker is built over a one-shot iterable (map/filter/generator) and stored in the "
                         "provider: every routing check consumes items, so which requests matched before decides what matches "
                         "now, and clones made by replace()/extend() share the half-consumed iterator", f.line))
+    # hidden memos anywhere in the package (functools caches and check-then-insert dictionaries): sa/memo.py
+    from .. import memo
+    memo.check(repo, res, "C11")
     res.assumptions = list(ASSUMPTIONS)
 
 
